@@ -161,6 +161,16 @@ func rawRootUses(fn *ssa.Function, rootField string, impls map[string]map[string
 				default:
 					bad = append(bad, y)
 				}
+			case *ssa.BinOp:
+				// an emptiness test of the root cuts nothing and compares nothing
+				// positional: the empty root is its own cleaned form for path.Join
+				if s, isS := constString(y.X); isS && s == "" && (y.Op == token.EQL || y.Op == token.NEQ) {
+					continue
+				}
+				if s, isS := constString(y.Y); isS && s == "" && (y.Op == token.EQL || y.Op == token.NEQ) {
+					continue
+				}
+				bad = append(bad, rf)
 			default:
 				bad = append(bad, rf)
 			}
@@ -197,25 +207,39 @@ func checkC36(c *Ctx, r *Report) {
 	}
 	sort.Strings(tnames)
 
-	r4 := r.Rule("R4", "E-EXHAUSTIVE", "every type New returns implements BlobPath and NameFromBlobPath in the namepath package and is analysed by R1-R3", 3)
+	r4 := r.Rule("R4", "E-EXHAUSTIVE", "every path scheme of the namepath package (every type with a BlobPath, NameFromBlobPath or BasePath method — whatever way New dispatches to them) has both a builder and a parser, and is analysed by R1-R3", 3)
 	if nw := r.MustFunc(r4, pkgNP+".New"); nw != nil {
-		for _, ret := range returnsOf(nw) {
-			mi, ok := unspill(ret.Results[0]).(*ssa.MakeInterface)
-			if !ok {
-				continue
-			}
-			t := typeName(mi.X.Type())
+		var all []string
+		for t := range impls {
+			all = append(all, t)
+		}
+		sort.Strings(all)
+		for _, t := range all {
 			m := impls[t]
-			r.Check(m != nil && m["BlobPath"] != nil && m["NameFromBlobPath"] != nil, r4, nw, "scheme "+short(t), ret, "builder and parser found", "a scheme returned by New has no analysable builder/parser pair")
+			var anchor *ssa.Function
+			for _, n := range []string{"BasePath", "NameFromBlobPath", "BlobPath"} {
+				if m[n] != nil {
+					anchor = m[n]
+				}
+			}
+			r.Check(m["BlobPath"] != nil && m["NameFromBlobPath"] != nil, r4, anchor, "scheme "+short(t), nil, "builder and parser found", "a path scheme has no analysable builder/parser pair")
 		}
 	}
 
 	r1 := r.Rule("R1", "E-CODEC/normalisation", "in NameFromBlobPath (and the BasePath it uses) the root field is used only as an argument of path.Join/path.Clean; BlobPath's result is a path.Join whose first element is the root or BasePath()", 3)
 	r2 := r.Rule("R2", "E-TAINT", "every non-constant operand of a pattern given to regexp.Compile/MustCompile in a parser passes through regexp.QuoteMeta", 2)
 	r3 := r.Rule("R3", "E-CODEC", "builder segments and parser pattern segments agree (literals equal, variables face non-literal segments, fixed widths equal, captures re-assembled in order with the builder's separator); prefix parsers cut at len(tested prefix)", 3)
+	{
+		var parsers []*ssa.Function
+		for _, t := range tnames {
+			parsers = append(parsers, impls[t]["NameFromBlobPath"])
+		}
+		defer rulesSeparatorAtRoot(c, r, parsers)
+	}
 	for _, t := range tnames {
 		bld, prs := impls[t]["BlobPath"], impls[t]["NameFromBlobPath"]
-		rootField := t + ".root"
+		// the root is the scheme's only string field, whatever it is called
+		rootField := t + "." + fieldByType(c, t, "string", "root")
 		// ---- builder shape
 		var join *ssa.Call
 		okB := true
@@ -292,7 +316,71 @@ func checkC36(c *Ctx, r *Report) {
 					}
 				}
 			}
+			// before/after of strings.Cut(name, sep) are parts 0 and 1
+			if ex, ok := v.(*ssa.Extract); ok && ex.Index <= 1 {
+				if cl, ok := ex.Tuple.(*ssa.Call); ok && calleeName(cl.Common()) == "strings.Cut" && cl.Call.Args[0] == ssa.Value(nameParam) {
+					if sep, ok := constString(cl.Call.Args[1]); ok {
+						splitSep = sep
+						return "part", int64(ex.Index)
+					}
+				}
+			}
 			return "other", 0
+		}
+		// expandBase spells a base out as [root, literal segments…]: the root field,
+		// path.Join(base, "lit/lit"), path.Clean(base), BasePath() of the scheme, or any
+		// of these under regexp.QuoteMeta. It lets the comparison start at the root on
+		// both sides, however the literals are distributed between BasePath and the
+		// builder/parser themselves.
+		var expandBase func(v ssa.Value, d int) ([]patherSeg, bool)
+		expandBase = func(v ssa.Value, d int) ([]patherSeg, bool) {
+			if d > 5 {
+				return nil, false
+			}
+			if isPureLoadOf(v, rootField) {
+				return []patherSeg{{lit: "\x00root"}}, true
+			}
+			cl, ok := v.(*ssa.Call)
+			if !ok {
+				return nil, false
+			}
+			switch calleeName(cl.Common()) {
+			case "regexp.QuoteMeta", "path.Clean":
+				return expandBase(cl.Call.Args[0], d+1)
+			case "path.Join":
+				es := varargElems(cl.Call.Args[0])
+				if len(es) == 0 {
+					return nil, false
+				}
+				segs, ok := expandBase(es[0], d+1)
+				if !ok {
+					return nil, false
+				}
+				for _, e := range es[1:] {
+					s, isC := constString(e)
+					if !isC {
+						return nil, false
+					}
+					for _, part := range strings.Split(strings.Trim(s, "/"), "/") {
+						segs = append(segs, patherSeg{lit: part})
+					}
+				}
+				return segs, true
+			}
+			if sf := cl.Common().StaticCallee(); sf != nil && sf.Name() == "BasePath" && impls[t]["BasePath"] == sf {
+				var out []patherSeg
+				n := 0
+				for _, ret := range returnsOf(sf) {
+					segs, ok := expandBase(unspill(ret.Results[0]), d+1)
+					if !ok || n > 0 {
+						return nil, false
+					}
+					out = segs
+					n++
+				}
+				return out, n == 1
+			}
+			return nil, false
 		}
 		// ---- parser shape
 		var compiles []*CallSite
@@ -357,6 +445,14 @@ func checkC36(c *Ctx, r *Report) {
 					sg.group = g
 				}
 				psegs = append(psegs, sg)
+			}
+			// compare from the root when both bases can be spelled out
+			bsegs := append([]patherSeg{}, bsegs...)
+			if bb, ok1 := expandBase(elems[0], 0); ok1 {
+				if pb, ok2 := expandBase(ops[0], 0); ok2 {
+					bsegs = append(bb, bsegs...)
+					psegs = append(pb, psegs...)
+				}
 			}
 			ok := len(psegs) == len(bsegs)
 			why := fmt.Sprintf("builder has %d segments after the base, the pattern %d", len(bsegs), len(psegs))
